@@ -215,6 +215,19 @@ func genC11(e *emitter, tier string) {
 	n /= shardCount
 	for i := 0; i < n; i++ {
 		sd, tr, l, r, _ := genPair(e, false)
+		if i%8 == 0 {
+			// groups of duplicate members of different sizes on the two sides, one a
+			// prefix of the other: the last member of some list once more on the left,
+			// twice more on the right (or the other way round)
+			if d1, ok := dupLastMember(&sd.parser.Schema, tr, deepCopy(l)); ok {
+				d2, _ := dupLastMember(&sd.parser.Schema, tr, deepCopy(d1))
+				if e.rng.Intn(2) == 0 {
+					l, r = d1, d2
+				} else {
+					l, r = d2, d1
+				}
+			}
+		}
 		tl, tr2 := typedOf(sd, tr, l, true), typedOf(sd, tr, r, true)
 		if tl == nil || tr2 == nil {
 			continue
@@ -366,3 +379,33 @@ func genC14(e *emitter, tier string) {
 }
 
 func joinStr(xs []string) string { return strings.Join(xs, " ") }
+
+// appends a copy of the last member of the first non-empty set / associative list found
+// (fields in sorted order); reports whether one was found
+func dupLastMember(sc *schema.Schema, tr schema.TypeRef, v interface{}) (interface{}, bool) {
+	a, ok := sc.Resolve(tr)
+	if !ok {
+		return v, false
+	}
+	switch t := v.(type) {
+	case L:
+		if a.List != nil && a.List.ElementRelationship == schema.Associative && len(t) > 0 {
+			return append(t, deepCopy(t[len(t)-1])), true
+		}
+	case M:
+		if a.Map == nil || a.Map.ElementRelationship == schema.Atomic {
+			return v, false
+		}
+		for _, k := range sortedKeys(t) {
+			ft := a.Map.ElementType
+			if f, has := a.Map.FindField(k); has {
+				ft = f.Type
+			}
+			if nv, ok := dupLastMember(sc, ft, t[k]); ok {
+				t[k] = nv
+				return t, true
+			}
+		}
+	}
+	return v, false
+}
